@@ -22,8 +22,8 @@ func wsRun(d []byte, i int) (end int, nl bool) {
 // value at i (no leading whitespace). returns value, end, ok
 func (m *jm) value(i int) (interface{}, int, bool) {
 	if l := ModelString(m.d, i, false); l.Match || l.Lenient {
-		if !l.Match {
-			return nil, 0, false
+		if !l.Match || l.RawBreakEarly {
+			return nil, 0, false // (a raw line break in a plain string: no string, and nothing else starts with a quote)
 		}
 		return l.Value, l.End, true
 	}
@@ -60,7 +60,7 @@ func (m *jm) item(i int, obj bool) (string, interface{}, int, bool) {
 		return "", v, e, ok
 	}
 	l := ModelString(m.d, i, false)
-	if !l.Match {
+	if !l.Match || l.RawBreakEarly {
 		return "", nil, 0, false
 	}
 	j, nl := wsRun(m.d, l.End)
